@@ -225,7 +225,7 @@ func TestOpMatrixV8(t *testing.T) {
 	defer ex.Flush(s)
 	cfg := genCfg(ex)
 	s.Check(t, func(t *rapid.T, c *core.Case) {
-		nmod := rapid.IntRange(1, core.Scale(6, 10)).Draw(t, "nmodules")
+		nmod := rapid.IntRange(core.Scale(3, 5), core.Scale(6, 10)).Draw(t, "nmodules")
 		var cases []*om.Case
 		var wasms [][]byte
 		var batch []jsModule
